@@ -108,6 +108,7 @@ class Engine:
         self.solver.set("timeout", self.timeout_ms)
         self.pending = []
         self.nfresh = 0
+        self.gen_count = 0
         self.symbols = {}
         self.latched = None
         self.path_obligations = 0
